@@ -18,7 +18,8 @@ TRUSTED_BASE = [
 def proof_side(ctx, prop, extra_targets=()):
     """translate -> lake build Props.<prop> (+driver) -> axiom audit -> forbidden-token grep.
     Returns dict(ok, broken:list[str], obligations, discharged, ...) and fills ctx.coverage."""
-    res = vlib.lean_build(["CelerVerif.Props." + prop, "celer_model"] + list(extra_targets))
+    res = vlib.lean_build(["celer_model_" + prop.lower(), "CelerVerif.Props." + prop]
+                          + list(extra_targets))
     broken = []
     for e in res["translate_errors"]:
         broken.append("translator: " + e)
@@ -41,8 +42,7 @@ def proof_side(ctx, prop, extra_targets=()):
     hits = vlib.grep_forbidden()
     for h in hits:
         broken.append("forbidden token: " + h)
-    model_ok = os.path.exists(vlib.MODEL_EXE) and (res["ok"] or "celer_model" not in res["log"]
-                                                   or model_built(res))
+    model_ok = os.path.exists(vlib.model_exe(prop)) and (res["ok"] or model_built(res))
     ctx.coverage.update({
         "obligations": obligations, "discharged": discharged if not hits else 0,
         "checker_cmd": f"cd /verif/lean && lake build CelerVerif.Props.{prop} && lake env lean "
